@@ -1,4 +1,6 @@
 import SJ.Proofs.Tables
+import SJ.Proofs.BlockScan
+import SJ.Generated.Consts
 /-
 C08 — ParseND equals parsing each non-blank line.
 -/
@@ -11,5 +13,12 @@ theorem C08_newline_shared : Generated.aNewlineByte = Generated.aNewlineByte512 
 
 /-- CR is white space (so CRLF endings are invisible), LF is white space (so it is never a pseudo-structural) -/
 theorem C08_crlf : isWsByte 13 = true ∧ isWsByte 10 = true := by decide +kernel
+
+/-- ND mode differs from plain mode only by LF outside strings being emitted; both families agree with the
+    scalar scanner on every message in either mode. -/
+theorem C08_stage1_nd (avx512 : Bool) (msg : Bytes) : stage1 true msg = SJ.Block.stage1Blocks avx512 true msg :=
+  SJ.Block.stage1_eq_blocks avx512 true msg
+/-- index buffers made of newline entries need the same head room -/
+theorem C08_buffer_bound : Generated.cindexSizeWithSafetyBuffer + 64 + 64 ≤ Generated.cindexSize := by decide
 
 end SJ.Properties.C08
